@@ -61,9 +61,16 @@ def gen_case(rng, nmax=40, estimators=ESTIMATORS, binnings=BINNINGS, allow_spars
     elif form == 'ratio':
         maxlag = float(rng.choice([0.3, 0.5, 0.75, 0.9]))
     elif form == 'abs_below':
-        maxlag = float(rng.choice(uniq[len(uniq) // 3:])) if rng.random() < 0.5 else float(dmax * rng.uniform(0.4, 0.95))
+        # a maxlag *equal* to an occurring distance only where that distance is exactly
+        # representable (integer distances on a lattice); an irrational distance rounded to a
+        # float is "within rounding distance of the boundary" and cKDTree decides it on squares
+        exact = [x for x in uniq[len(uniq) // 3:] if float(x).is_integer()] if kind == 'lattice' else []
+        if exact and rng.random() < 0.6:
+            maxlag = float(rng.choice(exact))
+        else:
+            maxlag = float(dmax * rng.uniform(0.4, 0.95))
     elif form == 'abs_at':
-        maxlag = dmax
+        maxlag = dmax if float(dmax).is_integer() else float(dmax * (1 + 1e-9))
     elif form == 'abs_above':
         maxlag = float(dmax * 1.5 + 1)
     else:
